@@ -324,6 +324,64 @@ func evalC06(c C06Case) *h.Finding {
 	return nil
 }
 
+// ---- LMTP: the backend reports every recipient BEFORE it has read the message -----------------------------------------
+
+type C06EarlyCase struct {
+	N      int64 `json:"n"`
+	M      int   `json:"m"`
+	Buf    int   `json:"buf"`
+	PerOct bool  `json:"per_octet"`
+	Dots   bool  `json:"dots"`
+}
+
+// evalC06Early: a per-recipient LMTP backend that calls SetStatus for its only recipient first and reads the message
+// afterwards. The replies are then decided, but the message is still being read: the limit holds for the reader all
+// the same - at most N octets, and no end-of-file for a message above the limit.
+func evalC06Early(c C06EarlyCase) *h.Finding {
+	cfg, be := modeConfig("lmtp-rcpt")
+	cfg.MaxMessageBytes = c.N
+	be.Plan = func(idx int) h.DataPlan {
+		p := h.DataPlan{Buf: c.Buf, Max: -1}
+		if idx == 0 {
+			p.Status = []h.StatusCall{{Rcpt: "ok@b.example", Err: nil}}
+		}
+		return p
+	}
+	msg, wire := dataMessage(c.M, c.Dots)
+	in := []byte(hello("lmtp") + "MAIL FROM:<ok@a.example>\r\nRCPT TO:<ok@b.example>\r\nDATA\r\n" + string(wire) + "NOOP\r\n")
+	segs := h.OneSeg(in)
+	if c.PerOct {
+		segs = h.PerOctet(in)
+	}
+	o := h.RunS(cfg, be, segs, h.TermEOF)
+	desc := fmt.Sprintf("LMTP, the backend sets its recipient's status before it reads: N=%d message of %d octets buf=%d peroctet=%t dots=%t", c.N, c.M, c.Buf, c.PerOct, c.Dots)
+	if f := o.Sanity("c06", desc); f != nil {
+		return f
+	}
+	var ev *h.Event
+	for i, e := range o.Trace {
+		if e.Kind == "LMTPData" {
+			ev = &o.Trace[i]
+			break
+		}
+	}
+	if ev == nil {
+		return h.F("c06-early-no-delivery", "%s: no LMTPData call (replies %s)", desc, o.Codes())
+	}
+	if int64(len(ev.Body)) > c.N {
+		return h.F("c06-backend-read-too-much", "%s: the backend read %d octets", desc, len(ev.Body))
+	}
+	if int64(c.M) > c.N && (ev.ReadErr == "EOF" || ev.ReadErr == "stopped") {
+		return h.F("c06-over-limit-eof", "%s: the reader of a message above the limit ended with %s after %d octets", desc, ev.ReadErr, len(ev.Body))
+	}
+	if int64(c.M) <= c.N && (ev.ReadErr != "EOF" || !bytes.Equal(ev.Body, msg)) {
+		return h.F("c06-within-limit-differs", "%s: the backend read %q (%s), want the whole message then EOF", desc, ev.Body, ev.ReadErr)
+	}
+	return nil
+}
+
+func init() { h.RegisterReplayer("c06-early", evalC06Early) }
+
 // ---- declared chunk sizes near the integer boundaries ------------------------------------------
 
 type C06HugeCase struct {
@@ -512,7 +570,7 @@ func C06(tier string) int {
 	if tier == "thorough" {
 		Ns = []int64{1, 2, 3, 5, 8, 13, 64, 4096, 4097}
 	}
-	run.Rule = fmt.Sprintf("limits N in %v x message sizes N-2..N+2 and 4N x {DATA (plain and dot-stuffed lines), every division into <=3 BDAT chunks incl. empty ones} x backend read sizes {1,3,N,4096} x {one segment, one octet per segment} x {SMTP, LMTP, LMTP per-recipient}; every chunk division of >=2 chunks also with a command {MAIL, RCPT, NOOP, DATA, unknown, MAIL SIZE=1} between the chunks (octet bound only); MAIL SIZE=s for s in {0,1,N-1,N,N+1,10N} for N and for no limit, SIZE above the limit glued to the path / behind TAB / behind two spaces (never accepted), and s at the integer boundaries (2^32-1, 2^32, 2^63-1, 2^63, 2^63+100, 2^64-1, 2^64, 10^23: refused, backend not consulted); BDAT with a declared size at the integer boundaries (2^32-1, 2^32, 2^63-1, 2^63, 2^64-100, 2^64-1, 2^64, 10^23) as first or second chunk, with and without LAST, followed by an over-limit LAST chunk. Plus EVERY message body over the class alphabet {'.',CR,LF,'a'} of <=%d octets (reader seam: read sizes {1,2,3,4096}) / <=%d octets (full server path, modes %v, read sizes {1,4096}) x EVERY limit 1..size+1 x {one segment, one octet per segment}, so that every octet pattern (end-marker look-alikes, dots, bare CR/LF) sits at every offset relative to the limit. Distinct by construction; non-trivial = size within 2 of the limit or above it. Oracle: backend octets <= N; over the limit: reader fails (no EOF), 552, probe RCPT refused; within: observation identical to the same conversation on a server without limit (differential).", Ns, map[bool]int{false: 7, true: 9}[tier == "thorough"], map[bool]int{false: 5, true: 6}[tier == "thorough"], map[bool][]string{false: {"smtp"}, true: {"smtp", "lmtp", "lmtp-rcpt"}}[tier == "thorough"])
+	run.Rule = fmt.Sprintf("limits N in %v x message sizes N-2..N+2 and 4N x {DATA (plain and dot-stuffed lines), every division into <=3 BDAT chunks incl. empty ones} x backend read sizes {1,3,N,4096} x {one segment, one octet per segment} x {SMTP, LMTP, LMTP per-recipient}; every chunk division of >=2 chunks also with a command {MAIL, RCPT, NOOP, DATA, unknown, MAIL SIZE=1} between the chunks (octet bound only); MAIL SIZE=s for s in {0,1,N-1,N,N+1,10N} for N and for no limit, SIZE above the limit glued to the path / behind TAB / behind two spaces (never accepted), and s at the integer boundaries (2^32-1, 2^32, 2^63-1, 2^63, 2^63+100, 2^64-1, 2^64, 10^23: refused, backend not consulted); BDAT with a declared size at the integer boundaries (2^32-1, 2^32, 2^63-1, 2^63, 2^64-100, 2^64-1, 2^64, 10^23) as first or second chunk, with and without LAST, followed by an over-limit LAST chunk. Plus EVERY message body over the class alphabet {'.',CR,LF,'a'} of <=%d octets (reader seam: read sizes {1,2,3,4096}) / <=%d octets (full server path, modes %v, read sizes {1,4096}) x EVERY limit 1..size+1 x {one segment, one octet per segment}, so that every octet pattern (end-marker look-alikes, dots, bare CR/LF) sits at every offset relative to the limit. LMTP with a per-recipient backend that reports its recipient BEFORE it reads the message: limits {5,8,20} x every size 0..N+45 x read sizes {1,3,4096} x segmentation x plain/dot-stuffed (the limit binds the reader although the replies are decided). Distinct by construction; non-trivial = size within 2 of the limit or above it. Oracle: backend octets <= N; over the limit: reader fails (no EOF), 552, probe RCPT refused; within: observation identical to the same conversation on a server without limit (differential).", Ns, map[bool]int{false: 7, true: 9}[tier == "thorough"], map[bool]int{false: 5, true: 6}[tier == "thorough"], map[bool][]string{false: {"smtp"}, true: {"smtp", "lmtp Plus: a chunk, STARTTLS answered 220, octets that are no handshake, then a LAST chunk that takes the message over the limit (the count of the first chunk survives the failed upgrade).", "lmtp-rcpt"}}[tier == "thorough"])
 	run.Assumptions = []string{"message size = octets after dot-unstuffing, incl. the CRLF in front of the end marker (RFC 1870)", "the backend reads the message to the end and returns the reader's error (a backend that stops early and returns nil claims success itself)", "a declared SIZE >= 2^32 may be refused with 501 (number not parsed) instead of 552; it must be refused without consulting the backend"}
 	var cases []C06Case
 	seen := map[string]bool{}
@@ -696,5 +754,61 @@ func C06(tier string) int {
 		}
 		run.Outcomes(out)
 	})
+	for _, n := range []int64{5, 8, 20} {
+		for m := 0; m <= int(n)+45; m++ {
+			if m == 1 {
+				continue // dataMessage: 0 or >= 2
+			}
+			for _, buf := range []int{1, 3, 4096} {
+				for _, per := range []bool{false, true} {
+					for _, dots := range []bool{false, true} {
+						c := C06EarlyCase{N: n, M: m, Buf: buf, PerOct: per, Dots: dots}
+						f := evalC06Early(c)
+						run.Eval(true)
+						if f != nil {
+							run.Violate("c06-early", c, f, func() *h.Finding { return evalC06Early(c) })
+							run.Outcome("violation:" + f.Sig)
+						}
+					}
+				}
+			}
+		}
+	}
+	run.Outcome("early-status-ok")
+	// LMTP, per-recipient backend, message above the limit: ALL interleavings (schedule explorer) of the backend's status
+	// calls and reads (4 octets at a time), the handler's reply writes and the client's segments - the limit binds the
+	// reader in every one of them (the replies may all be decided while the backend is still reading)
+	if haveVsync() {
+		for _, sc := range []C13Case{
+			{Rcpts: "a", Calls: "a", Before: 1, Ret: "nil", Transfer: "data", Limit: 10, Buf: 4},
+			{Rcpts: "ab", Calls: "ab", Before: 2, Ret: "nil", Transfer: "data", Limit: 10, Buf: 4},
+			{Rcpts: "ab", Calls: "ab", Before: 1, Ret: "nil", Transfer: "data", Limit: 10, Buf: 4},
+			{Rcpts: "a", Calls: "a", Before: 1, Ret: "err", Transfer: "data", Limit: 22, Buf: 7},
+			{Rcpts: "a", Calls: "a", Before: 1, Ret: "nil", Transfer: "bdat2", Limit: 12, Buf: 4},
+		} {
+			sc := sc
+			st := h.Explore(func() h.World { return &c13World{c: sc} }, h.ExploreOpts{Bound: -1, Expired: run.Expired}, func(x *h.Exec, f *h.Finding, leak string) {
+				run.Eval(true)
+				run.Trace(1)
+				if f == nil && leak != "" {
+					f = h.F("c06-deadlock", "%+v schedule=%v: goroutines blocked forever: %.300s", sc, x.Schedule, leak)
+				}
+				if f != nil {
+					cc := sc
+					cc.Schedule = append([]string(nil), x.Schedule...)
+					run.Violate("c13", cc, f, func() *h.Finding { return evalC13Schedule(cc) })
+					run.Outcome("violation:" + f.Sig)
+				}
+			})
+			run.Transition(st.ChoicePts)
+			run.Counter("lmtp_over_limit_interleavings", int64(st.Executions))
+			if st.Truncated {
+				run.NotExhaustive("an exploration of the LMTP over-limit scenario was cut short")
+			}
+		}
+		run.Outcome("lmtp-over-limit-interleavings-ok")
+	}
+	// a failed STARTTLS handshake in the middle of a chunked transfer does not reset the count (checks/c07.go)
+	runFailedUpgrades(run, "c06")
 	return run.Finish()
 }
